@@ -92,6 +92,18 @@ CHECKS.update({
    note="Module depth 2, one function per module level, sibling modules named so that their names are string prefixes of each other. Rejecting an admissible reference is not counted as a failure.",
    design="4/C17"),
 })
+CHECKS.update({
+ "C09": dict(
+   technique="bounded-exhaustive enumeration of (stage-1 expression, staging context) pairs and lifted numeric computations; differential execution of the staged program against the expansion written by the harness, on both backends (shape E)",
+   text="Every expression of a menu covering each stage-1 construct is placed in every staging context (quote/splice, identity macro, macro-stage let spliced once and twice, f!(a) vs $(f(a)), nested contexts, two-argument and composed macros, code-building recursion) and compared bit for bit, for N samples on VM and WASM, with the hand-expanded program; numbers computed at the macro stage and lifted must equal the f64 the harness computes.",
+   note="Menus are finite (16 expressions x 9 contexts, nesting depth 2); expansions are the harness's templates.",
+   design="4/C09"),
+ "C10": dict(
+   technique="bounded-exhaustive enumeration of (macro body, binder naming, spliced argument, use site) combinations; metamorphic comparison of each program with its alpha-renamed variant (shape E)",
+   text="Every combination of a macro body (each binder kind), a binder naming that collides with names in play, a spliced argument mentioning each such name and a use site binding the same names is compared with the same program whose macro binders are renamed to fresh names: acceptance and outputs must be identical.",
+   note="Metamorphic oracle, no expected values. Namings that would make the renaming capture a same-stage reference are excluded (not alpha-variants).",
+   design="4/C10"),
+})
 NOT_YET = {}
 
 def main():
